@@ -19,13 +19,13 @@ reg("C03",
     rule="one evaluation = one (request kind, start, end, UUID value, MTU) case = the request plus its continuation requests through l2cap_input() "
          "compared with the reference service table; a class = request kind x kind of UUID value (primary / secondary / both / unknown, 16/128 bit) x "
          "position of start/end x first response (error code, one service, several services)",
-    bound="quick: %d server declarations; thorough: %d; each with all (start,end) in {0..last+2, 0xFFFF}^2, every service UUID of the server + "
-          "unknown 16/128 bit, MTU in {23,24,48,65,247}" % (len(_servers.family("C03", "quick")), len(_servers.family("C03", "thorough"))),
+    bound="quick: %d server declarations; thorough: %d; each with all (start,end) in {0..last+2, 0xFFFF}^2, every service UUID of the server, each with its first / last "
+          "octet changed, every prefix and suffix (0..16 octets) of every service UUID, unknown 16/128 bit; MTU in {23,24,48,65,247}" % (len(_servers.family("C03", "quick")), len(_servers.family("C03", "thorough"))),
     units=[dict(src="harness/C03_primary_services.cpp", pre=["python3", "gen/servers.py", "emit"], variants=_variants)],
     quick_deadline=40, thorough_deadline=500,
     assumptions=[
         "configuration quantifier = the grammar of gen/servers.py (secondary first/middle/last/only, 16/128 bit, same UUID as a primary, fixed handle "
-        "gaps, with and without include_service, GAP service)",
+        "gaps, with and without include_service (also nested), 128 bit service UUIDs that start / end with the octets of a 16 bit service UUID of the same server, GAP service)",
         "declarations that do not compile are excluded: " + "; ".join("%s (%s)" % e for e in _servers.EXCLUDED),
         "demanded: every reported service is a declared primary service (never a secondary), with its declared UUID and end group handle (0xFFFF "
         "accepted for the last service of the database), ascending; Attribute Not Found only if no primary service (with that UUID) starts in the range; "
